@@ -408,6 +408,26 @@ func (c *Ctx) genC16() {
 		// tokens minted by the codec itself from assertions (friendly names, repeated attributes, several statements, absent subject)
 		c.mintCases(s, t0)
 	}
+	// replay after use: deployments at the same URL with different keys (a rotated key, a second instance in the same
+	// process). A token is shown to the deployment that minted it first — which accepts it — and then to the others:
+	// what one codec has verified means nothing to a codec holding another key. Then the other way round.
+	{
+		root := "https://sp.example.com"
+		a := c.newJWTSetup("sp", root, "", time.Hour)
+		b := c.newJWTSetup("sp2", root, "", time.Hour)
+		e := c.newJWTSetup("ec256", root, "", time.Hour)
+		for round, order := range [][]*jwtSetup{{b, e, a, b, e, a}, {a, a, b, e}} {
+			cl := jwtClaims{Aud: root, Iss: root, Sub: fmt.Sprintf("alice-%d", round), Exp: t0.Add(time.Hour).Unix(), Iat: t0.Unix(), Nbf: t0.Unix(), SamlSession: true, Attrs: map[string][]string{"uid": {"alice"}}}
+			t := c.sign("RS256", cl, "sp")
+			for _, s := range order {
+				c.sessionCase(s, &t, nil, t0.Add(time.Minute), "replay-after-use")
+			}
+			te := c.sign("ES256", cl, "ec256")
+			for _, s := range []*jwtSetup{e, a, b, e} {
+				c.sessionCase(s, &te, nil, t0.Add(2*time.Minute), "replay-after-use")
+			}
+		}
+	}
 	// cross-deployment: a token minted by another deployment that shares the key
 	{
 		s := setups[0]
